@@ -185,3 +185,18 @@ PROPS["C09"] = dict(
     replay_attempts=300,
     gomaxprocs1=True,
 )
+
+PROPS["C17"] = dict(
+    level="model_checking",
+    technique="bounded symbolic execution of go/ssa (gosmt) with modelled goroutines/channels: placements, failures and schedules are path decisions, remote sizes are 64-bit solver variables (z3)",
+    explanation="real Dataset.SizeInfo with its lookup goroutines, closer and collector; local partitions hold real indexes, remote ones are harness pb.DataManagerClient implementations answering by the partition id in the request",
+    runs={
+        "quick": [dict(pkg="./storage", entry="VerifC17", bounds="maxp=3,placements=4", reach=["sized", "end"])],
+        "thorough": [dict(pkg="./storage", entry="VerifC17", bounds="maxp=3,placements=4,preempt=2", reach=["sized", "end"])],
+    },
+    outside="more than 3 partitions / 2 remote nodes; caller-context cancellation; interleavings finer than synchronisation points",
+    assumptions=COMMON_ASSUME + ["remote data-manager services are harness implementations of pb.DataManagerClient",
+                                 "goroutines are interleaved at synchronisation points only; the read of the captured loop variable is exposed because goroutine start is such a point"],
+    replay_attempts=200,
+    gomaxprocs1=True,
+)
